@@ -26,6 +26,11 @@ def gss_name():
     return st.tuples(st.sampled_from(gss_prefixes()), st.text(alphabet=B64, min_size=1, max_size=24), st.sampled_from(['', '=', '=='])).map(lambda t: t[0] + t[1] + t[2])
 
 
+def unknown_gss_name():
+    """gss-* key exchanges of families the table has no wildcard entry for: unknown names, shown as advertised."""
+    return st.tuples(st.sampled_from(['gss-group20-sha512-', 'gss-group14-sha512-', 'gss-curve25519-sha512-', 'gss-nistp256-sha512-', 'gss-', 'gss-x-', 'gss-gex-sha512-']), st.text(alphabet=B64, min_size=1, max_size=24), st.sampled_from(['', '=', '=='])).map(lambda t: t[0] + t[1] + t[2])
+
+
 def unknown_name(max_size=40):
     return st.text(alphabet=RFC_NAME_ALPHABET, min_size=1, max_size=max_size)
 
@@ -46,6 +51,7 @@ def name(cat, empty=True, weird=True):
         s.append((1, st.just('')))
     if cat == 'kex':
         s.append((2, gss_name()))
+        s.append((1, unknown_gss_name()))
     # weighted choice
     pool = []
     for w, x in s:
